@@ -11,7 +11,7 @@ from multiprocessing import Pool
 import z3
 
 import gen
-from c10 import gen_system, CATS
+from c10 import gen_system, CATS, FARBOX
 from core import Q, TAU, Con, VERIF, zclosed, zlin, zfrac, run_driver, aff_json, aff_from_json, l1
 from fw import Check, run_main, absorb_stats, step_panics
 
@@ -66,11 +66,12 @@ def solve_case(args):
     q = Q(n)
     xs = q.xs
     P = [Con(r, v, False) for r, v in zip(A, b)]
+    near = [z3.And(x <= FARBOX, x >= -FARBOX) for x in xs]      # counter-witnesses where f64 can resolve the margin (see c10.FARBOX)
     canonical_empty = (QA == [[FR(0)] * n] and Qb == [FR(-1)])
     out["obl"] += 1
     if canonical_empty and not (len(A) == 1 and A == QA and b == Qb):
         # allowed only if the input system is infeasible (up to the LP tolerance)
-        r, m = q.check([zclosed(c.closed(-TAU), xs) for c in P], sample_tag="C15 replaced by empty => input empty up to tau")
+        r, m = q.check([zclosed(c.closed(-TAU), xs) for c in P] + near, sample_tag="C15 replaced by empty => input empty up to tau (|x| <= 2^26)")
         if r == "sat":
             out["viol"].append(("remove_redundant/feasible-replaced-by-empty", "replaced by the canonical empty polytope although x=%s "
                                 "satisfies every row with margin 1e-6" % [float(v) for v in m]))
@@ -101,7 +102,7 @@ def solve_case(args):
             viol = [z3.BoolVal(0 > b[i])]
         else:
             viol = [zlin(A[i], xs) > zfrac(b[i] + TAU * l1(A[i]))]
-        r, m = q.check([zclosed(c.closed(0), xs) for c in Qc] + viol, sample_tag="C15 dropped row implied by the kept ones")
+        r, m = q.check([zclosed(c.closed(0), xs) for c in Qc] + viol + near, sample_tag="C15 dropped row implied by the kept ones (|x| <= 2^26)")
         if r == "sat":
             out["viol"].append(("remove_redundant/set-grew", "dropped row %d (%s <= %s) is not implied: x=%s satisfies all kept rows but violates it" % (
                 i, [float(t) for t in A[i]], float(b[i]), [float(v) for v in m])))
@@ -183,7 +184,8 @@ def main():
                               "subsequence of the input rows; engine T: z3 decides that no point of the result violates a dropped row by "
                               "a margin, that a canonical-empty result only replaces a system empty up to tau, and that no kept row is "
                               "implied by the other kept rows by a margin; subsequence by comparison of exported rows")
-    chk.assumptions += ["engine T: points all reals (solver), systems seeded by category", "engine L: exact real arithmetic in place of f64"]
+    chk.assumptions += ["engine T: points all reals (solver), systems seeded by category; counter-witnesses (a point the clean-up lost or "
+                        "gained) are sought within |x_i| <= 2^26, where f64 resolves the 1e-6 margin", "engine L: exact real arithmetic in place of f64"]
     return chk.finish()
 
 
